@@ -888,7 +888,7 @@ func perCallValue(f *core.Func, e ast.Expr, depth int) bool {
 	// assigning a local variable itself (no memory reached through it) is always local
 	if v := core.VarOf(info, e); v != nil && depth == 0 {
 		encl := f.Root()
-		if v.Pos() >= encl.Body.Pos() && v.Pos() < encl.Body.End() {
+		if core.DeclaredIn(encl.Info(), encl.Body, v) {
 			return true
 		}
 	}
@@ -926,7 +926,7 @@ func perCallValue(f *core.Func, e ast.Expr, depth int) bool {
 		return true
 	}
 	encl := f.Root()
-	if !(v.Pos() >= encl.Body.Pos() && v.Pos() < encl.Body.End()) {
+	if !core.DeclaredIn(encl.Info(), encl.Body, v) {
 		return false // parameter, receiver or package-level
 	}
 	defs := core.DefsOf(info, encl.Body, v)
